@@ -617,6 +617,19 @@ def ctor_catalogue():
         idx = pd.date_range(start, periods=n, freq="D", tz="US/Pacific")
         dfx = pd.DataFrame({"observed": rng.random(n) + 1.0, "temperature": rng.random(n) * 50 + 30}, index=idx)
         items.append((f"DailyBaselineData({n} daily rows from {start}, US/Pacific)", lambda df=dfx: DailyBaselineData(df.copy(), is_electricity_data=True), want))
+    # a span that starts and ends in the same calendar month of two years: the month is judged as a whole
+    # (two days without temperature among the twelve January days of the first year; January overall 29 of 31)
+    idx = pd.date_range("2021-01-20", periods=365, freq="D", tz="US/Pacific")
+    dfy = pd.DataFrame({"observed": rng.random(365) + 1.0, "temperature": rng.random(365) * 50 + 30}, index=idx)
+    dfy.iloc[[3, 7], 1] = np.nan
+    items.append(("DailyBaselineData(365 rows from 2021-01-20, two January days without temperature)", lambda df=dfy: DailyBaselineData(df.copy(), is_electricity_data=True), []))
+    # a 35-day bill that contains the autumn fall-back night is 35 days long, not off-cycle
+    ends = ["2020-12-28", "2021-01-28", "2021-02-27", "2021-03-29", "2021-04-28", "2021-05-28", "2021-06-28", "2021-07-28", "2021-08-27", "2021-09-26", "2021-10-26", "2021-11-30", "2021-12-28"]
+    midx = pd.DatetimeIndex([pd.Timestamp(e, tz="US/Pacific") for e in ends])
+    meter = pd.Series(rng.random(len(midx)) * 500 + 300, index=midx)
+    tidx = pd.date_range(midx[0] - pd.Timedelta(days=3), midx[-1] + pd.Timedelta(days=3), freq="h")
+    temp = pd.Series(rng.random(len(tidx)) * 40 + 30, index=tidx)
+    items.append(("BillingBaselineData.from_series(monthly reads, a 35-day bill across the fall-back night)", lambda a=meter, b=temp: BillingBaselineData.from_series(a.copy(), b.copy(), is_electricity_data=True), []))
     # billing reads on a regular 28-day calendar (inferred as an anchored weekly frequency) and on calendar months
     for label, midx in (("every 28 days", pd.date_range("2020-01-05", periods=14, freq="28D", tz="US/Pacific")), ("month starts", pd.date_range("2021-01-01", periods=13, freq="MS", tz="US/Pacific"))):
         meter = pd.Series(rng.random(len(midx)) * 500 + 300, index=midx)
